@@ -475,9 +475,10 @@ def run(root):
                 else: ftable[(ref[1], name)] = lean_name
         except Untranslatable as ex:
             failed.append((lean_name, str(ex)))
+    vtext, vdone, vfailed = run_views(root, mtable, ftable)
     text = ("-- GENERATED by translate/t2.py from /repo/src — do not edit\nimport Matreex.Prelude\n"
-            "open Matreex\nnamespace Matreex.Gen\n\n" + "\n".join(out) + "\nend Matreex.Gen\n")
-    return text, done, failed
+            "open Matreex\nnamespace Matreex.Gen\n\n" + "\n".join(out) + "\n" + vtext + "\nend Matreex.Gen\n")
+    return text, done + vdone, failed + vfailed
 
 # ------------------------------------------------------------------ simple forms (constructors, conversions,
 # field getters, in-place swaps): translated by template, emitted as pure functions into Gen/Simple.lean
@@ -593,6 +594,61 @@ def run_simple(root):
     text = ("-- GENERATED by translate/t2.py (simple forms) from /repo/src — do not edit\nimport Matreex.Prelude\n"
             "open Matreex\nnamespace Matreex.Gen\n\n" + "\n".join(out) + "\nend Matreex.Gen\n")
     return text, done, failed
+
+# ------------------------------------------------------------------ view parameters (C06): the (skip, step, take)
+# triple of the four `iter_nth_*_axis_vector_unchecked(_mut)` functions and the guards of their checked wrappers
+VIEW_JOBS = [
+    # (rust fn, lean name, kind)
+    ("iter_nth_major_axis_vector_unchecked", "Matrix.iter_nth_major_axis_vector_unchecked", "triple"),
+    ("iter_nth_minor_axis_vector_unchecked", "Matrix.iter_nth_minor_axis_vector_unchecked", "triple"),
+    ("iter_nth_major_axis_vector_unchecked_mut", "Matrix.iter_nth_major_axis_vector_unchecked_mut", "triple"),
+    ("iter_nth_minor_axis_vector_unchecked_mut", "Matrix.iter_nth_minor_axis_vector_unchecked_mut", "triple"),
+    ("iter_nth_major_axis_vector", "Matrix.iter_nth_major_axis_vector", "guarded"),
+    ("iter_nth_minor_axis_vector", "Matrix.iter_nth_minor_axis_vector", "guarded"),
+    ("iter_nth_major_axis_vector_mut", "Matrix.iter_nth_major_axis_vector_mut", "guarded"),
+    ("iter_nth_minor_axis_vector_mut", "Matrix.iter_nth_minor_axis_vector_mut", "guarded"),
+]
+
+def translate_view(src, name, lean_name, kind, mtable, ftable):
+    text = find_fn(src, None, name)
+    # `self.<x>_stride()` on the matrix delegates to the axis shape (recorded and proved in Gen/Simple.lean)
+    text = re.sub(r"self\s*\.\s*(major_stride|minor_stride)\s*\(\s*\)", r"self.shape.\1()", text)
+    # the return type (an iterator adaptor chain) is replaced: we translate the PARAMETERS of the chain
+    text = re.sub(r"->\s*[^{]*\{", "{", text, count=1)
+    ast = P(lex(text)).fn()
+    body = ast["body"]
+    em = Emit(name, "Hdr", mtable, ftable)
+    if kind == "triple":
+        stmts, tail = body[1], body[2]
+        # tail: self.data.iter()/iter_mut() .skip(A) .step_by(B) .take(C)
+        def chain(e):
+            names, args = [], []
+            while e[0] == "mcall":
+                names.append(e[2]); args.append(e[3]); e = e[1]
+            return e, names[::-1], args[::-1]
+        base, names, args = chain(tail)
+        if not (base == ("field", ("path", ["self"]), "data") and names[0] in ("iter", "iter_mut") and names[1:] == ["skip", "step_by", "take"]
+                and all(len(a) == 1 for a in args[1:])):
+            raise Untranslatable(f"view chain not recognised: {names}")
+        new_body = ("block", stmts, ("tuple", [args[1][0], args[2][0], args[3][0]]))
+        return f"def {lean_name} (self_ : Hdr) (n : Nat) : M (Nat × Nat × Nat) :=\n  {em.block(new_body)}\n"
+    # guarded: if n >= self.<axis>() { Err(E) } else { Ok(self.<unchecked>(n)) }   (or with an early return)
+    return f"def {lean_name} (self_ : Hdr) (n : Nat) : M (Except Error (Nat × Nat × Nat)) :=\n  {em.block(body)}\n"
+
+def run_views(root, mtable, ftable):
+    out, done, failed = [], [], []
+    try:
+        src = strip_rust_comments(open(f"{root}/iter.rs").read())
+    except OSError as ex:
+        return "", [], [("iter.rs", str(ex))]
+    for name, lean_name, kind in VIEW_JOBS:
+        try:
+            out.append(translate_view(src, name, lean_name, kind, mtable, ftable))
+            done.append(lean_name)
+            mtable[(name, 1)] = lean_name
+        except (Untranslatable, ValueError, IndexError) as ex:
+            failed.append((lean_name, str(ex)))
+    return "\n".join(out), done, failed
 
 if __name__ == "__main__":
     root = sys.argv[1] if len(sys.argv) > 1 else "/repo/src"
